@@ -1,11 +1,11 @@
 (* C05, client side: correspondence + the C05 monitor (verdict v05) on the implementation's trace. *)
 From Coq Require Import List NArith Bool.
 Import ListNotations.
-From TarpcV Require Import Base Transport Client ClientS ClientMon.
+From TarpcV Require Import Base Transport Client ClientS ClientMon ClientMon2.
 
 Definition case := (ccfg * list sop * list (list obs))%type.
 Definition model (c : case) : list (list obs) := let '(cfg, ops, _) := c in crun cfg ops.
 Definition check (c : case) : N :=
   let '(cfg, ops, tr) := c in
   let v := monitors (cf_maxif cfg) (map to_op ops) tr in
-  verdict (trace_eqb (crun cfg ops) tr) (v05 v).
+  verdict (trace_eqb (crun cfg ops) tr) (v05 v && c05p_ok (cf_maxif cfg) (map to_op ops) tr).
